@@ -7,7 +7,7 @@ use crate::error::{ProtocolError, Result};
 use base64::Engine;
 use cascette_formats::CascFormat;
 use cascette_formats::bpsv::BpsvDocument;
-use mail_parser::{HeaderValue, MessageParser, PartType};
+use mail_parser::{HeaderValue, MessageParser, MimeHeaders, PartType};
 use sha2::{Digest, Sha256};
 use tracing::{debug, trace};
 
@@ -67,6 +67,29 @@ pub fn parse_v1_mime_response(raw_response: &[u8]) -> Result<V1MimeResponse> {
         message.parts.len(),
         message.text_body
     );
+
+    // A response is read until the peer closes the connection, and the checksum line is
+    // the last thing a server sends. Without a (well-formed) checksum line nothing has
+    // been verified, so a multipart message must at least be complete up to its closing
+    // delimiter: otherwise the connection was cut short, and a message cut at a row
+    // boundary would parse as a shorter, perfectly valid table.
+    if checksum.is_none()
+        && let Some(content_type) = message.content_type()
+        && content_type.ctype().eq_ignore_ascii_case("multipart")
+    {
+        let complete = content_type.attribute("boundary").is_some_and(|boundary| {
+            let closing = format!("--{boundary}--");
+            message_data
+                .windows(closing.len())
+                .any(|window| window == closing.as_bytes())
+        });
+        if !complete {
+            return Err(ProtocolError::Parse(
+                "Incomplete V1 response: neither a checksum line nor the closing MIME delimiter"
+                    .to_string(),
+            ));
+        }
+    }
 
     // Extract the main data part and signature
     let mut data_content = None;
@@ -436,6 +459,37 @@ mod tests {
             expected_checksum
         );
         assert!(parsed.data.contains("Region!STRING:0"));
+    }
+
+    /// A response cut short by the peer must not parse as a shorter table
+    #[test]
+    fn test_truncated_multipart_response_is_rejected() {
+        let message = concat!(
+            "MIME-Version: 1.0\r\n",
+            "Content-Type: multipart/alternative; boundary=\"b\"\r\n",
+            "\r\n",
+            "--b\r\n",
+            "Content-Type: text/plain\r\n",
+            "Content-Disposition: version\r\n",
+            "\r\n",
+            "Region!STRING:0|BuildId!DEC:4\nus|1\neu|2\n",
+            "\r\n",
+            "--b--\r\n",
+        );
+        let mut hasher = Sha256::new();
+        hasher.update(message.as_bytes());
+        let response = format!("{message}Checksum: {:x}\r\n", hasher.finalize());
+
+        let full = parse_v1_mime_to_bpsv(response.as_bytes()).expect("Operation should succeed");
+        assert_eq!(full.rows().len(), 2);
+
+        // Every proper prefix either fails or still carries all rows (only the checksum
+        // line itself is cut)
+        for cut in 1..response.len() {
+            if let Ok(doc) = parse_v1_mime_to_bpsv(&response.as_bytes()[..cut]) {
+                assert_eq!(doc.rows().len(), 2, "prefix of {cut} bytes");
+            }
+        }
     }
 
     /// Test the old error case to ensure it's fixed
